@@ -38,9 +38,15 @@ def cases_for(ctx):
     cases.append({'behaviours': ['equal', 'die_idle', 'equal', 'different', 'equal', 'equal'], 'dedicated': True, 'recycle': 5, 'keep': True})
     cases.append({'behaviours': ['bare_status', 'different', 'player_raises', 'spawn_child', 'equal'], 'dedicated': False, 'recycle': 5, 'keep': False, 'pair': 'B'})
     cases.append({'behaviours': ['bare_status', 'different', 'player_raises', 'spawn_child', 'equal'], 'dedicated': True, 'recycle': 1, 'keep': False, 'pair': 'B'})
+    # a comparator that reports a structured (non-text) diff; a parent that is descheduled right after forking a worker
+    cases.append({'behaviours': ['equal', 'dict_diff', 'equal', 'dict_diff', 'different'], 'dedicated': True, 'recycle': 2, 'keep': True, 'pair': 'D'})
+    cases.append({'behaviours': ['equal', 'dict_diff', 'equal', 'dict_diff', 'different'], 'dedicated': False, 'recycle': 2, 'keep': True, 'pair': 'D'})
+    cases.append({'behaviours': ['equal', 'different', 'equal', 'equal', 'different', 'equal', 'equal'], 'dedicated': True, 'recycle': 2, 'keep': False, 'slow_start': 0.4})
     if ctx.quick:
         return cases
     rng = ctx.rng
+    cases.append({'behaviours': ['equal', 'exit', 'equal', 'hang', 'different', 'equal'], 'dedicated': True, 'recycle': 2, 'keep': True, 'slow_start': 0.3})
+    cases.append({'behaviours': ['different'] * 7, 'dedicated': True, 'recycle': 1, 'keep': True, 'slow_start': 0.25, 'via_studio': True})
     # every fatal behaviour at every position of a length-4 sequence, recycle rates 1,2,3,5
     for b, pos, recycle in itertools.product(H.FATAL, range(4), [1, 2, 3, 5]):
         seq = ['equal', 'different', 'equal', 'equal']
